@@ -32,6 +32,10 @@ class SolverUnknown(EngineSignal):
     """z3 answered unknown / timed out on a feasibility query."""
 
 
+class PathCut(EngineSignal):
+    """The path left a stated bound (loop unwinding, step cap); counted, never a pass."""
+
+
 # --------------------------------------------------------------------------------------
 # current environment
 # --------------------------------------------------------------------------------------
@@ -76,6 +80,12 @@ _KEEP: list = []  # keeps z3 ASTs alive so ids in _LOW_MEMO stay unique
 def reset_memo():
     _LOW_MEMO.clear()
     _KEEP.clear()
+    try:
+        from . import containers
+
+        containers._HEAVY_MEMO.clear()
+    except Exception:
+        pass
 
 
 _HOMO = {
@@ -286,6 +296,8 @@ class SymInt:
                 return 0
             if o == 1:
                 return self
+        if type(o) is SymInt:
+            self, o = canon_int(self), canon_int(o)
         cs = [self.lo * _lo(o), self.lo * _hi(o), self.hi * _lo(o), self.hi * _hi(o)]
         lo, hi = min(cs), max(cs)
         w = need_bits(lo, hi)
@@ -594,6 +606,74 @@ class FloatQuot:
     __hash__ = _unsup
 
 
+# canonical operands for multiplication / division ----------------------------------------------
+
+
+def canon(t):
+    """Resolve every ite whose condition is an index fact (forking where the path condition has
+    not decided it yet) so that operands of multiplications and divisions are the same terms in
+    every simulation that computes them on this path."""
+    e = _ENV
+    if e is None or getattr(e, "mode", "") != "sym" or not hasattr(e, "index_implied"):
+        return t
+    memo = {}
+    budget = [400]
+
+    def go(x):
+        i = x.get_id()
+        r = memo.get(i)
+        if r is not None:
+            return r
+        budget[0] -= 1
+        if budget[0] < 0 or not z3.is_app(x) or x.num_args() == 0:
+            memo[i] = x
+            return x
+        k = x.decl().kind()
+        if k == z3.Z3_OP_ITE:
+            c, a, b = x.children()
+            if e._index_only(c):
+                v = e.index_implied(c)
+                if v is None:
+                    v = e.decide(c)
+                r = go(a) if v else go(b)
+                memo[i] = r
+                return r
+        if k == z3.Z3_OP_UNINTERPRETED:
+            memo[i] = x
+            return x
+        ch = x.children()
+        nch = [go(c) for c in ch]
+        if all(a.eq(b) for a, b in zip(ch, nch)):
+            r = x
+        else:
+            try:
+                if k in (z3.Z3_OP_SIGN_EXT, z3.Z3_OP_ZERO_EXT, z3.Z3_OP_EXTRACT):
+                    ps = x.params()
+                    if k == z3.Z3_OP_EXTRACT:
+                        r = z3.Extract(ps[0], ps[1], nch[0])
+                    elif k == z3.Z3_OP_SIGN_EXT:
+                        r = z3.SignExt(ps[0], nch[0])
+                    else:
+                        r = z3.ZeroExt(ps[0], nch[0])
+                else:
+                    r = x.decl()(*nch)
+            except Exception:
+                r = x
+        memo[i] = r
+        _KEEP.append(x)
+        return r
+
+    return go(t)
+
+
+def canon_int(x):
+    if type(x) is SymInt:
+        t = canon(x.t)
+        if t is not x.t:
+            return SymInt(t, x.lo, x.hi)
+    return x
+
+
 # coercion helpers ------------------------------------------------------------------
 
 
@@ -716,6 +796,7 @@ def truncdiv(a, b):
         q = abs(a) // abs(b)
         return q if (a >= 0) == (b >= 0) else -q
     _check_zero(b)
+    a, b = canon_int(a), canon_int(b)
     if _nonneg(a) and _nonneg(b):
         w = max(_hi(a).bit_length(), _hi(b).bit_length(), 1)
         t = z3.UDiv(_ubits(a, w), _ubits(b, w))
@@ -744,6 +825,7 @@ def floordiv(a, b):
     if type(b) is int and b > 0 and (b & (b - 1)) == 0:
         return a >> (b.bit_length() - 1)
     _check_zero(b)
+    a, b = canon_int(a), canon_int(b)
     if _nonneg(a) and _nonneg(b):
         w = max(_hi(a).bit_length(), _hi(b).bit_length(), 1)
         t = z3.UDiv(_ubits(a, w), _ubits(b, w))
@@ -762,6 +844,7 @@ def pymod(a, b):
     if type(b) is int and b > 0 and (b & (b - 1)) == 0:
         return a & (b - 1)
     _check_zero(b)
+    a, b = canon_int(a), canon_int(b)
     if _nonneg(a) and _nonneg(b):
         w = max(_hi(a).bit_length(), _hi(b).bit_length(), 1)
         t = z3.URem(_ubits(a, w), _ubits(b, w))
@@ -859,6 +942,16 @@ class Env:
         self.notes: dict = {}
         self.cut = None  # reason string if the path was cut by a bound
         self._fresh = 0
+        # unwinding bounds for loops inside repository code: {function name: max number of
+        # decisions taken from one activation of that function}
+        self.site_bounds: dict = {}
+        self._site_counts: dict = {}
+        # side solver holding only the path-condition conjuncts over small (index-like) inputs;
+        # used to simplify write-log reads (sound: it is weaker than the path condition)
+        self.small_vars: set = set()
+        self.index_solver = z3.Solver()
+        self.index_n = 0
+        self._implied_cache: dict = {}
 
     # ---- symbolic inputs -----------------------------------------------------------------
     def int(self, name: str, lo: int, hi: int):
@@ -871,6 +964,8 @@ class Env:
         t = z3.BitVec(name, w)
         full_lo, full_hi = -(1 << (w - 1)), (1 << (w - 1)) - 1
         self.inputs[name] = (t, lo, hi)
+        if w <= 8:
+            self.small_vars.add(name)
         if lo != full_lo:
             self._add(t >= z3.BitVecVal(lo, w))
         if hi != full_hi:
@@ -908,9 +1003,59 @@ class Env:
         return f(arg_term)
 
     # ---- path condition ------------------------------------------------------------------
+    def _index_only(self, c) -> bool:
+        # fast reject: comparisons over wide bit-vectors are never index facts
+        t = c
+        while z3.is_app(t) and t.decl().kind() == z3.Z3_OP_NOT:
+            t = t.arg(0)
+        if z3.is_app(t) and t.num_args() >= 1:
+            a0 = t.arg(0)
+            if z3.is_bv(a0) and a0.size() > 8:
+                return False
+        todo = [c]
+        n = 0
+        while todo:
+            t = todo.pop()
+            n += 1
+            if n > 60:
+                return False
+            if z3.is_const(t):
+                if z3.is_bv_value(t) or z3.is_true(t) or z3.is_false(t):
+                    continue
+                if t.decl().kind() == z3.Z3_OP_UNINTERPRETED and t.decl().name() in self.small_vars:
+                    continue
+                return False
+            if not z3.is_app(t) or t.decl().kind() == z3.Z3_OP_UNINTERPRETED:
+                return False
+            todo.extend(t.children())
+        return True
+
+    def index_implied(self, c):
+        """True / False if the index-only part of the path condition implies c / not c; else None."""
+        if z3.is_true(c):
+            return True
+        if z3.is_false(c):
+            return False
+        key = (c.get_id(), self.index_n)
+        r = self._implied_cache.get(key, 0)
+        if r != 0:
+            return r
+        r = None
+        if self._index_only(c):
+            if self.index_solver.check(z3.Not(c)) == z3.unsat:
+                r = True
+            elif self.index_solver.check(c) == z3.unsat:
+                r = False
+        self._implied_cache[key] = r
+        _KEEP.append(c)
+        return r
+
     def _add(self, c):
         self.solver.add(c)
         self.pc_len += 1
+        if self.small_vars and self._index_only(c):
+            self.index_solver.add(c)
+            self.index_n += 1
         if self.model is not None:
             try:
                 v = self.model.eval(c, model_completion=True)
@@ -920,18 +1065,35 @@ class Env:
                 self.model = None
 
     def _check(self, *assumptions):
+        """Incremental check first (short timeout); on unknown, a fresh one-shot solver with z3's
+        full preprocessing pipeline (decides many multiplier queries the incremental core cannot)."""
         eng = self.engine
         t0 = time.perf_counter()
         r = self.solver.check(*assumptions)
+        self._model_src = self.solver
+        if r == z3.unknown:
+            s2 = z3.Solver()
+            s2.set("timeout", eng.timeout_ms)
+            for a in self.solver.assertions():
+                s2.add(a)
+            for a in assumptions:
+                s2.add(a)
+            r = s2.check()
+            self._model_src = s2
+            self._unknown_reason = s2.reason_unknown() if r == z3.unknown else None
+            eng.fallbacks += 1
         eng.solver_time += time.perf_counter() - t0
         eng.queries += 1
         return r
+
+    def _last_model(self):
+        return self._model_src.model()
 
     def _ensure_model(self):
         if self.model is None:
             r = self._check()
             if r == z3.sat:
-                self.model = self.solver.model()
+                self.model = self._last_model()
             elif r == z3.unsat:
                 raise PathPruned()
             else:
@@ -953,6 +1115,8 @@ class Env:
             return True
         if z3.is_false(c):
             return False
+        if self.site_bounds:
+            self._site_check()
         if self.pos < len(self.prefix):
             kind, v = self.prefix[self.pos]
             if kind != "b":
@@ -975,6 +1139,27 @@ class Env:
         self._add(c if v else z3.Not(c))
         return v
 
+    def _site_check(self):
+        import sys
+
+        f = sys._getframe(2)
+        depth = 0
+        while f is not None and depth < 40:
+            name = f.f_code.co_name
+            b = self.site_bounds.get(name)
+            if b is not None:
+                k = id(f)
+                ent = self._site_counts.get(k)
+                if ent is None or ent[0] is not f:
+                    ent = [f, 0]
+                    self._site_counts[k] = ent
+                ent[1] += 1
+                if ent[1] > b:
+                    raise PathCut("unwinding bound %d of %s exceeded" % (b, name))
+                return
+            f = f.f_back
+            depth += 1
+
     def concretize(self, x) -> int:
         """Complete case split of a symbolic int over all feasible values."""
         if type(x) is int:
@@ -996,7 +1181,7 @@ class Env:
                     break
                 if r != z3.sat:
                     raise SolverUnknown("concretize: " + self.solver.reason_unknown())
-                m = self.solver.model()
+                m = self._last_model()
                 bv = m.eval(x.t, model_completion=True)
                 v = bv.as_signed_long()
                 vals.append(v)
@@ -1056,7 +1241,7 @@ class Env:
             self.claims.append((label, "ok", None))
             return True
         if r == z3.sat:
-            m = self.solver.model()
+            m = self._last_model()
             self.claims.append((label, "fail", self.export_model(info, m)))
             return False
         self.claims.append((label, "unknown", self.solver.reason_unknown()))
@@ -1211,13 +1396,15 @@ class PathResult:
 
 
 class Engine:
-    def __init__(self, timeout_ms: int = 30000, max_paths: int = 200000, want_models: int = 1):
+    def __init__(self, timeout_ms: int = 30000, max_paths: int = 200000, want_models: int = 1, incremental_timeout_ms: int = 1500):
         self.timeout_ms = timeout_ms
+        self.incremental_timeout_ms = incremental_timeout_ms
         self.max_paths = max_paths
         self.want_models = want_models  # export a model for every k-th completed path (0 = never)
         self.solver = None
         self.queue: list = []
         self.solver_time = 0.0
+        self.fallbacks = 0
         self.queries = 0
         self.vcs = 0
         self.paths = 0
@@ -1243,7 +1430,7 @@ class Engine:
             self.paths += 1
             reset_memo()
             self.solver = z3.SolverFor("QF_UFBV")
-            self.solver.set("timeout", self.timeout_ms)
+            self.solver.set("timeout", min(self.timeout_ms, self.incremental_timeout_ms))
             e = Env(self, list(prefix))
             set_env(e)
             r = PathResult()
@@ -1254,6 +1441,9 @@ class Engine:
                 r.status = "ok"
             except PathPruned:
                 r.status = "pruned"
+            except PathCut as ex:
+                r.status = "cutoff"
+                r.error = str(ex)
             except SolverUnknown as ex:
                 r.status = "unknown"
                 r.error = str(ex)
